@@ -18,8 +18,8 @@
   WITHOUT ERASURE (`Props/C12_custom_build.lean`): `print_build_roundtrip_custom` — `build (schemaToDocA s c apps) = ok s`,
   by congruence of every environment-reading function of the builder model (`value_from_ast`, the thunk guard, `build_*`)
   under "same definitions up to custom applications" — and `text_roundtrip_custom_build`, the text-level round trip whose
-  built document is the parsed one.  Still open: `build doc = build (doc.map eraseCustom)` for ARBITRARY documents
-  (extensions included); it is evaluated by the driver on every printed document (`BuildIgnoresCustomStatement`).
+  built document is the parsed one.  `build doc = build (doc.map eraseCustom)` for ARBITRARY documents (extensions included,
+  `BuildIgnoresCustomStatement`) is proved in `Props/C12_erase_all.lean`; it is also evaluated by the driver on every printed document.
 -/
 import PyGqlModel.Lemmas.SdlTextAOrder
 import PyGqlModel.Props.C12_order
